@@ -113,11 +113,13 @@ def hunt5_rules(chk, repo, wc, folder):
     else:
         g = cfg_of(cf.node)
         lock = [n_ for n_ in g.nodes if n_.kind == "with-enter" and "self._send_lock" in norm.raw(n_.ast)] or [n_ for n_ in g.nodes if isinstance(getattr(n_, "ast", None), ast.AsyncWith) and "self._send_lock" in norm.raw(n_.ast.items[0].context_expr)]
+        # the task set itself or a local taken from it (`pending = set(self._background_tasks)`)
+        tnames = {"self._background_tasks"} | {n_ for n_, ds in norm.fn_defs(cf.node).defs.items() if any(v is not None and "self._background_tasks" in norm.raw(v) for _d, v in ds)}
         waits = [n_ for n_ in g.nodes if n_.in_finally_copy is None and isinstance(getattr(n_, "ast", None), ast.AST) and n_.kind in ("stmt", "test") and any(
-            norm.raw(c.func) in ("asyncio.wait", "asyncio.gather") and "self._background_tasks" in norm.raw(c) for c in K.node_calls(n_))]
+            norm.raw(c.func) in ("asyncio.wait", "asyncio.gather") and any(t in norm.raw(c) for t in tnames) for c in K.node_calls(n_))]
         # skipping the wait is fine when there is nothing to wait for
         def empty_set(a, b, k):
-            return a.kind == "test" and k == "F" and norm.raw(a.ast) == "self._background_tasks"
+            return a.kind == "test" and k == "F" and norm.raw(a.ast) in tnames
         p_ = K.find_path_edges(g, [g.entry], lambda n_: n_ in lock, lambda n_: n_ in waits, empty_set, EXPLICIT) if lock else None
         if lock and waits and p_ is None:
             chk.ok("C11.closing.pending", waits[0].ast, "close() waits for the send tasks it knows of before it takes the lock: a task created lazily (no eager start before 3.12) is not overtaken by the Close frame")
